@@ -27,6 +27,12 @@ func (m *Machine) envIntrinsic2(name string, fn *ssa.Function, args []Value) (Va
 	c := m.ctx
 	nilErr := IfaceV{}
 	switch name {
+	case "(*sync.Mutex).Lock", "(*sync.Mutex).Unlock", "(*sync.RWMutex).Lock", "(*sync.RWMutex).Unlock", "(*sync.RWMutex).RLock", "(*sync.RWMutex).RUnlock":
+		m.stub(name)
+		return nil, true
+	case "log.Printf", "log.Println", "log.Print":
+		m.stub(name)
+		return nil, true
 	case "crypto/rand.Read":
 		m.stub(name)
 		return TupleV{c.IntI(SI64, int64(args[0].(SliceV).len)), nilErr}, true
@@ -131,7 +137,20 @@ func (m *Machine) envIntrinsic2(name string, fn *ssa.Function, args []Value) (Va
 			e.groups[g] = st
 		}
 		f := args[1].(*FuncV)
+		// record the worker's writes to objects that existed before it started (C17.workers)
+		savedBase, savedStores := m.workerBase, m.workerStores
+		m.workerBase, m.workerStores = m.frameSerial+1, map[Loc]bool{}
 		r := m.callClosure(f, nil)
+		mine := m.workerStores
+		m.workerBase, m.workerStores = savedBase, savedStores
+		for _, other := range e.groupWrites[g] {
+			for l := range mine {
+				if other[l] {
+					m.workerConflicts = append(m.workerConflicts, fmt.Sprintf("two errgroup workers write the same location (%T)", l))
+				}
+			}
+		}
+		e.groupWrites[g] = append(e.groupWrites[g], mine)
 		if iv, ok := r.(IfaceV); ok && iv.t != nil && st.err.t == nil {
 			st.err = iv
 		}
